@@ -59,6 +59,10 @@ def run(chk):
     chk.call(r4_torn_tail, chk, mapb, put)
     # a crash 1-4 bytes into a block header leaves a header that cannot be unpacked: that is "no further record", not an error
     chk.borrow("C03.R2", c02.r9_short_header_is_no_header, chk)
+    # the truncation of R4 runs inside open(): the stream map_blocks sees in mode 'a' must be open for writing (clause of C04.R3)
+    from . import c04
+
+    chk.borrow("C03.R4", c04.r3_index_refresh, chk, only=lambda o: o["construct"].endswith(":arm-a-scans-on-a-writable-stream") or o["construct"].endswith(":arm-a-maps-blocks"))
 
 
 def _scan_loop(mapb):
